@@ -6,6 +6,8 @@ the liveness monitor giving up as one more task that calls `close()`, transport 
 at any piece of any write.  Invariants: `Lemmas/Conc.lean`.
 -/
 import AnyTLS.Props.C11
+import AnyTLS.Lemmas.Session
+import AnyTLS.Props.C02
 
 namespace AnyTLS.C09
 open AnyTLS AnyTLS.C11
@@ -219,5 +221,32 @@ theorem stuck_means_finished (s : Sess) (hc : s.closed = false) {cs : CS} (r : R
 
 /-- non-vacuity: the demo state of C11 (two tasks, fresh client session) has a finite budget -/
 example : demoCS.s.scheme.maxParts + 12 ≤ 14 ∧ totalCost 14 demoCS = 77 := by decide +kernel
+
+/-! ### the receive loop's end of input (sequential model `Model/Session.lean`, the one the `sess` group drives)
+
+The interleaving model above treats "the receive loop reacts to EOF / a read error" as a task that calls `close()`.
+That it does so *whatever the receive buffer still holds* — a peer may end the transport in the middle of a frame — is a
+statement about the sequential model of the loop (seed C09f made the loop leave before `close()` in exactly that case). -/
+
+theorem close_sets_closed (s : Sess) : s.close.closed = true ∧ s.close.shut = true ∨ (s.closed = true ∧ s.close = s) := by
+  unfold Sess.close
+  by_cases h : s.closed = true
+  · right; simp [h]
+  · left; simp [h]
+
+/-- T9.x `end_of_input_closes`: when the transport ends (clean end of input or a read error) while the loop is still
+running, the session is closed and its transport shut down — for every content of the receive buffer, in particular a
+partial frame — and the loop is over. -/
+theorem end_of_input_closes (s : Sess) (hrun : s.recvDone = false) :
+    s.feedEnd.closed = true ∧ s.feedEnd.recvDone = true := by
+  unfold Sess.feedEnd
+  simp only [hrun, Bool.false_eq_true, if_false, and_true]
+  rcases close_sets_closed s with h | h
+  · exact h.1
+  · rw [h.2]; exact h.1
+
+/-- non-vacuity: a server session that has received three bytes of a header and then the end of input -/
+example : (((C02.exS.feedBytes [2, 0, 0]).feedEnd).closed = true) ∧ ((C02.exS.feedBytes [2, 0, 0]).rbuf = [2, 0, 0]) := by
+  decide
 
 end AnyTLS.C09
